@@ -808,14 +808,24 @@ impl MemoryLoc {
                     if self.offset != 0 {
                         addr = builder.ins().iadd_imm(addr, self.offset as i64);
                     }
+                    // only the bytes of the value itself may be written. the bytes between `size`
+                    // and `stride` can belong to something else (the next field of a struct comes
+                    // directly after `size`).
+                    //
+                    // cranelift wants the size to be a multiple of the alignment,
+                    // so sizes like 5 (align 4) are copied with an alignment of 1
+                    let align = if ty.size() % ty.align() == 0 {
+                        ty.align() as u8
+                    } else {
+                        1
+                    };
                     builder.emit_small_memory_copy(
                         module.target_config(),
                         addr,
                         val,
-                        // this has to be stride for some reason, it can't be size
-                        ty.stride() as u64,
-                        ty.align() as u8,
-                        ty.align() as u8,
+                        ty.size() as u64,
+                        align,
+                        align,
                         true,
                         MemFlags::trusted(),
                     )
@@ -826,7 +836,7 @@ impl MemoryLoc {
                     let mut off = 0;
                     macro_rules! mem_cpy_loop {
                         ($width:expr) => {
-                            while (off + $width) <= (ty.stride() as i32 / $width) * $width {
+                            while (off + $width) <= (ty.size() as i32 / $width) * $width {
                                 let bytes = builder.ins().load(
                                     cranelift::codegen::ir::Type::int_with_byte_size($width)
                                         .unwrap(),
@@ -887,10 +897,12 @@ impl MemoryLoc {
                 let mut off = 0;
                 macro_rules! mem_cpy_loop {
                     ($width:expr) => {
-                        while (off + $width) <= (ty.stride() as i32 / $width) * $width {
+                        while (off + $width) <= (ty.size() as i32 / $width) * $width {
+                            // `val` repeated in every byte of an int which is exactly `$width` bytes wide
+                            // (this used to always be an 8 byte store, which wrote past the value)
                             let val = builder.ins().iconst(
-                                cranelift::codegen::ir::Type::int_with_byte_size(8).unwrap(),
-                                val as i64,
+                                cranelift::codegen::ir::Type::int_with_byte_size($width).unwrap(),
+                                (u64::from_ne_bytes([val; 8]) & (u64::MAX >> (64 - $width * 8))) as i64,
                             );
                             builder
                                 .ins()
@@ -1008,7 +1020,9 @@ fn cast_into_memory(
 
         memory.write_all(val, *sub_ty, module, builder);
 
-        let discrim = builder.ins().iconst(ptr_ty, *discriminant as i64);
+        // the discriminant is a single byte. storing it as a pointer sized int would overwrite
+        // the seven bytes after the enum (the next field / array element / local)
+        let discrim = builder.ins().iconst(types::I8, *discriminant as i64);
         memory.write_val(builder, discrim, enum_layout.discriminant_offset() as i32);
 
         return Some(memory.into_value(builder, ptr_ty));
